@@ -2,6 +2,8 @@ import WhVerif.Util.Proto
 import WhVerif.Model.C14
 import WhVerif.Model.C14Text
 import WhVerif.Spec.C14
+import WhVerif.Model.C14Iter
+import WhVerif.Spec.C14Dup
 namespace WhVerif.Driver.C14
 open Lean WhVerif.Proto WhVerif.C14
 
@@ -77,7 +79,10 @@ def handleRun (j : Json) : Option Json :=
         ("written", ofList (fun k => ofNatList (written p k)) (List.range (o.ploidy + 1))),
         ("hist", ofList ofNatList (histRowsFix o p)), ("histText", Json.str (histText o p)),
         ("colSums", ofNatList ((List.range (o.ploidy + 1)).map (colSum (histRowsFix o p)))),
-        ("byList", byList)])
+        ("byList", byList),
+        ("byListGen", match parseText o text.toList with
+          | .ok lines => ofList (fun r => ofNatList (prescribedByListGen o lines r)) reads
+          | .error _ => Json.null)])
 
 /-- `c14.list {ploidy, discard, largest, text}` → `{four, hap, known} | {err}`: `check_haplotag_list_information` +
 `process_haplotag_list_file` (+ the two checks `run_split` makes around them) -/
@@ -116,12 +121,78 @@ def handleSmall (op : String) (j : Json) : Option Json :=
         | some .bam => "BAM" | some .fastq => "FASTQ" | none => "ValueError"))
   else none
 
+
+def itemJson (it : Item) : Json := Json.arr #[Json.str it.1, ofNat it.2.1, ofNat it.2.2]
+
+/-- round 10:
+`c14.iter {fmt: "bam", recs: [[name, seqlen, [[op, n]…]]…]}` → `_bam_iterator`'s items `[[name, length, index]…]`;
+`c14.iter {fmt: "fastq", recs: [[title, [seq lines]]…]}` → `{items, titles}` (`titles` = what `str(record)` prints);
+`c14.magic {head: [bytes], inner: [bytes] | null, path}` → `{magic, fmt}` | `{raise: true}`;
+`c14.largest {ploidy, text}` → `{blocks: [[chrom, ps, lines, firstIdx]…], yard: [[chrom, ps]…]}` | `{err}` -/
+def handleDeep (op : String) (j : Json) : Option Json :=
+  if op == "c14.iter" then
+    match getStr? j "fmt" with
+    | some "bam" =>
+      let parsed : Option (List BamRec) := do
+        (← getList? j "recs").mapM (fun e => do
+          match ← asArr? e with
+          | [a, b, c] => pure ⟨← asStr? a, ← asNat? b, ← pairList? c⟩
+          | _ => none)
+      match parsed with
+      | none => some badInput
+      | some recs => some (ofList itemJson (bamIter 0 recs))
+    | some "fastq" =>
+      let parsed : Option (List FqRec) := do
+        (← getList? j "recs").mapM (fun e => do
+          match ← asArr? e with
+          | [a, b] => pure ⟨(← asStr? a).toList, (← strList? b).map String.toList⟩
+          | _ => none)
+      match parsed with
+      | none => some badInput
+      | some recs => some (Json.mkObj [("items", ofList itemJson (fastqIter 0 recs)),
+          ("titles", ofList (fun r => Json.str (fastqTitleOut r.title)) recs)])
+    | _ => some badInput
+  else if op == "c14.magic" then
+    let parsed : Option (List Nat × Option (List Nat) × String) := do
+      let head ← getNatList? j "head"
+      let inner : Option (List Nat) := match j.getObjVal? "inner" with
+        | .ok v => natList? v
+        | _ => none
+      pure (head, inner, ← getStr? j "path")
+    match parsed with
+    | none => some badInput
+    | some (head, inner, path) =>
+      match magicOfBytes head inner with
+      | none => some (Json.mkObj [("raise", Json.bool true)])
+      | some m =>
+        let ms := match m with
+          | .cram => "cram" | .vcf => "vcf" | .bam => "bam" | .gzVcf => "gzvcf" | .other => "other"
+        some (Json.mkObj [("magic", Json.str ms), ("fmt", Json.str (match detectInput m path with
+          | some .bam => "BAM" | some .fastq => "FASTQ" | none => "ValueError"))])
+  else if op == "c14.largest" then
+    match (do pure (← getNat? j "ploidy", ← getStr? j "text") : Option (Nat × String)) with
+    | none => some badInput
+    | some (ploidy, text) =>
+      let o : Opts := ⟨ploidy, [], false, false, true⟩
+      match parseText o text.toList with
+      | .error e => some (Json.mkObj [("err", errJson e)])
+      | .ok lines =>
+        let tagged := taggedOf lines
+        let sel := selectedBlocks tagged
+        some (Json.mkObj [
+          ("blocks", ofList (fun b => Json.arr #[Json.str b.1, Json.str b.2, ofNat (blockSize tagged b),
+              ofNat (firstIdx tagged b)]) sel),
+          ("yard", ofList (fun b : String × String => Json.arr #[Json.str b.1, Json.str b.2])
+              ((dedup (tagged.map (·.chrom))).filterMap (firstLargestOf tagged)))])
+  else none
+
 /-- `c14.split {ploidy, requested, add, discard, largest, rows, reads}` →
 `{cur: {written, hist} | {err}, fix: …, prescribed: [[outputs] per read]}` -/
 def handle (op : String) (j : Json) : Option Json :=
   if op == "c14.run" then handleRun j
   else if op == "c14.list" then handleList j
   else if op == "c14.bamlen" || op == "c14.detect" then handleSmall op j
+  else if op == "c14.iter" || op == "c14.magic" || op == "c14.largest" then handleDeep op j
   else if op == "c14.split" then
     let parsed : Option (Opts × List (List String) × List Read) := do
       let o : Opts := { ploidy := ← getNat? j "ploidy", requested := ← boolList? (← getObj? j "requested"),
